@@ -124,6 +124,18 @@ def match_entry(ctx) -> None:
     ctx.check(all(cfg.cg(('supply != demand', True))[0] in cfg.cguards(s, fn.node) for s in ids) and bool(ids), 'C15.order', fn, 'identical is dropped as soon as one position differs', fn.node, key='identical:cond')
 
 
+def names_exact(ctx) -> None:
+    """Entry columns are matched to query columns by their *exact* names: nothing on the way normalises a name (case folding,
+    stripping, slicing) - ``Age`` and ``age`` are two columns, and folding them lets an unrelated surplus column of the entry
+    stand in for a query column."""
+    prog = ctx.prog
+    fn = prog.func(f'{PRODUCER}:Reader._match_entry')
+    folds = [c for c in ast.walk(fn.node) if isinstance(c, ast.Call) and isinstance(c.func, ast.Attribute) and c.func.attr in ('lower', 'upper', 'casefold', 'strip', 'lstrip', 'rstrip', 'title', 'capitalize', 'replace', 'translate')]
+    ctx.check(not folds, 'C15.order', fn, f'column names are compared as they are (no normalisation: {[core.src(c)[:40] for c in folds]})', folds[0] if folds else fn.node, key='match:names-exact')
+    gens = [g for g in ast.walk(fn.node) if isinstance(g, (ast.GeneratorExp, ast.ListComp)) and core.src(g.elt).endswith('.name')]
+    ctx.check(bool(gens), 'C15.order', fn, 'the compared names are the fields\' own `.name` values', fn.node, key='match:names-source')
+
+
 def cast(ctx) -> None:
     prog = ctx.prog
     fn = prog.func(f'{PRODUCER}:Reader._cast')
@@ -305,6 +317,7 @@ def kind_cast(ctx) -> None:
 
 
 def run(ctx) -> None:
+    names_exact(ctx)
     kind_cast(ctx)
     call_site(ctx)
     match_entry(ctx)
